@@ -13,7 +13,7 @@ RULE = ('(A) step conformance: after every observation from the fifth on the ser
         'positions exactly, heights to 16 ulp, quantile() == middle marker; the state after five observations must be the sorted '
         'observations at positions 1..5 with the prescribed desired positions. (B) black-box lockstep of quantile() against a '
         'from-scratch transcription of the paper. (C) mirror check Q_p(x) == -Q_(1-p)(-x) on tie-free streams with dyadic p. '
-        'Workload: trie-exhaustive streams over {0,1,2} and {-1,0,1,5} (every stream up to the depth in coverage.trie_depth, ties '
+        'Workload: trie-exhaustive streams over {0,1}, {0,1,2} and {-1,0,1,5} (every stream up to the depth in coverage.trie_depth, ties '
         'everywhere) x 7 values of p, plus random / sorted / reversed / zig-zag / trending / heavy-duplicate / two-value / constant / '
         '1e30-magnitude / new-minimum-burst / signed-zero streams. distinct_nontrivial = distinct streams (p, values) with at '
         'least one interior marker height adjusted after the fifth observation.')
@@ -42,8 +42,8 @@ PS = [0.0, 0.25, 0.5, 0.9, 1.0, 0.1, 1.0 / 3.0]
 
 def plan(tier, seed, variants_quick, variants_thorough):
     if tier == 'quick':
-        return {'d3': 9, 'd4': 7, 'nstreams': 1000, 'nmirror': 400, 'dense': 300, 'longmax': 5000, 'variants': variants_quick, 'mult': 1}
-    return {'d3': 11, 'd4': 9, 'nstreams': 20000, 'nmirror': 6000, 'dense': 400, 'longmax': 100000, 'variants': variants_thorough, 'mult': 8}
+        return {'d2': 14, 'd3': 9, 'd4': 7, 'nstreams': 1000, 'nmirror': 400, 'dense': 300, 'longmax': 5000, 'variants': variants_quick, 'mult': 1}
+    return {'d2': 17, 'd3': 11, 'd4': 9, 'nstreams': 20000, 'nmirror': 6000, 'dense': 400, 'longmax': 100000, 'variants': variants_thorough, 'mult': 8}
 
 
 def run_workload(tier, seed, shard_s, shard_t):
@@ -53,7 +53,8 @@ def run_workload(tier, seed, shard_s, shard_t):
         binary = build(variant)
         d3 = cfg['d3'] if frac >= 1 else cfg['d3'] - 2
         d4 = cfg['d4'] if frac >= 1 else cfg['d4'] - 2
-        work = trie_work([0.0, 1.0, 2.0], d3, PS) + trie_work([-1.0, 0.0, 1.0, 5.0], d4, PS)
+        d2 = cfg['d2'] if frac >= 1 else cfg['d2'] - 3
+        work = trie_work([0.0, 1.0, 2.0], d3, PS) + trie_work([-1.0, 0.0, 1.0, 5.0], d4, PS) + trie_work([0.0, 1.0], d2, PS, plen=4)
         random.Random(seed).shuffle(work)
         nsh = common.NPROC * (4 if tier == 'thorough' else 1)
         descs = [{'name': 't%s%d' % (variant[0], s), 'variant': variant, 'binary': binary, 'work': work[s::nsh]} for s in range(nsh)]
@@ -142,7 +143,7 @@ def run(tier, seed):
             'lockstep_comparisons': 5000}
     return common.finish(PROP, tier, seed, total, RULE, t0, ASSUME, min_events=need,
                          extra={'builds': [v for v, _ in cfg.get('variants', [])] + (['miri'] if tier == 'thorough' else []),
-                                'trie_depth': {'{0,1,2}': cfg.get('d3'), '{-1,0,1,5}': cfg.get('d4')}, 'p_values': PS,
+                                'trie_depth': {'{0,1}': cfg.get('d2'), '{0,1,2}': cfg.get('d3'), '{-1,0,1,5}': cfg.get('d4')}, 'p_values': PS,
                                 'monotone_tracking': mono})
 
 
